@@ -171,6 +171,9 @@ func c15Gen(g *Gen, prev *c15Cand) c15Cand {
 		c.r = c15Replicas(g)
 		c.i = append(c.i, c.r[:g.R.Range(1, len(c.r))]...)
 		c.ld = c.i[g.R.Intn(len(c.i))]
+		if g.R.Chance(8) {
+			c.ld = 0
+		}
 		c.mi = 1
 		c.ls = int64(g.R.Range(0, 1000))
 		c.rs = uint64(g.R.Range(0, 20))
@@ -179,6 +182,50 @@ func c15Gen(g *Gen, prev *c15Cand) c15Cand {
 		if g.R.Chance(35) {
 			c.tk, c.fv, c.fr, c.fu = "t"+strconv.Itoa(g.R.Intn(3)), uint64(g.R.Range(1, 4)), uint8(g.R.Range(1, 3)), int64(g.R.Range(1, 500))
 		}
+	} else if g.R.Chance(16) {
+		// same epochs as the (guessed) stored row, leader 0 / stored / another member; ISR and replicas
+		// shaped so that validateChannelRuntimeMeta accepts the candidate
+		c = *prev
+		c.r = append([]uint64(nil), prev.r...)
+		c.i = append([]uint64(nil), prev.i...)
+		switch g.R.Pick(40, 20, 40) {
+		case 0:
+			c.ld = 0
+			g.Count("cand:same-epochs-leader-zero")
+		case 1:
+			g.Count("cand:same-epochs-leader-stored")
+		default:
+			if c15Distinct(c.r) < 2 {
+				c.r = []uint64{1, 2, 3}
+			}
+			c.i = nil
+			seen := map[uint64]bool{}
+			for _, v := range c.r {
+				if !seen[v] {
+					seen[v] = true
+					c.i = append(c.i, v)
+				}
+			}
+			c.ld = c.i[g.R.Intn(len(c.i))]
+			if c.ld == prev.ld {
+				c.ld = c.i[(g.R.Intn(len(c.i)-1)+1)%len(c.i)]
+				for _, v := range c.i {
+					if v != prev.ld {
+						c.ld = v
+					}
+				}
+			}
+			g.Count("cand:same-epochs-leader-other-member")
+		}
+		if g.R.Chance(50) {
+			c.ls = c15NearI(g, prev.ls)
+		}
+		c.mi = int64(g.R.Range(1, c15Distinct(c.r)))
+		c.rg = 0
+		if g.R.Chance(35) {
+			c.rg = prev.rg + uint64(g.R.Intn(2))
+		}
+		return c
 	} else if g.R.Chance(22) {
 		// exactly one field differs from the (guessed) stored row, same epochs
 		c = *prev
@@ -237,6 +284,8 @@ func c15Gen(g *Gen, prev *c15Cand) c15Cand {
 			c.ld = c.i[g.R.Intn(len(c.i))]
 		} else if g.R.Chance(20) { // leader switch within the ISR
 			c.ld = c.i[g.R.Intn(len(c.i))]
+		} else if g.R.Chance(5) {
+			c.ld = 0
 		}
 		c.ls = c15NearI(g, prev.ls)
 		if g.R.Chance(40) {
